@@ -26,7 +26,7 @@ ASSUMPTIONS = [
     'by the statement and are not compared',
 ]
 ANCHORS = ['Table.concat', 'concat']
-REQUIRED = ['concat_calls', 'operand_list_reused', 'branch_padding', 'branch_resort',
+REQUIRED = ['hollow_operand_cases', 'hollow_operand_concatenated', 'concat_calls', 'operand_list_reused', 'branch_padding', 'branch_resort',
             'branch_passthrough', 'non_disjoint_refused', 'via_biom_concat',
             'via_table_concat', 'single_table_arg', 'axis_sample',
             'axis_observation', 'k1', 'k2', 'k3plus']
@@ -55,6 +55,9 @@ def run_case(ctx, index):
     other_mode = OTHER[(index // 2) % len(OTHER)]
     vclass = r.choice(gen.VALUE_CLASSES)
     specs = []
+    # one operand that has ids on the concatenation axis only (its other
+    # axis is empty): those ids still belong in the result, all zero
+    hollow = r.randrange(k) if (k >= 2 and index % 11 == 6) else None
     for j in range(k):
         # concat-axis ids: disjoint by construction, different lengths
         n_ax = r.randint(1, 4)
@@ -81,6 +84,8 @@ def run_case(ctx, index):
             o_ids = r.sample(universe, r.randint(1, len(universe)))
             if r.random() < .3:
                 o_ids.append('extra%d' % j)
+        if j == hollow:
+            o_ids = []
         shape = (len(o_ids), n_ax) if axis == 'sample' else (n_ax,
                                                               len(o_ids))
         D = gen.gen_matrix(r, shape[0], shape[1], vclass,
@@ -88,7 +93,8 @@ def run_case(ctx, index):
         has_md = r.random() < .6
         ax_md = [{'op': j, 'id': i, 'tax': ['t', i]} for i in ax_ids] \
             if has_md else None
-        o_md = [{'o': i} for i in o_ids] if r.random() < .5 else None
+        o_md = [{'o': i} for i in o_ids] if r.random() < .5 and o_ids \
+            else None
         if axis == 'sample':
             sp = gen.Spec(o_ids, ax_ids, D, o_md, ax_md)
         else:
@@ -123,7 +129,25 @@ def run_case(ctx, index):
             oracles.unchanged(t, b, 'C10/operand-modified', desc, 'operand')
         ctx.case(dict(desc, refused=True), True)
         return
-    if entry == 'biom':
+    if hollow is not None:
+        ctx.count('hollow_operand_cases')
+        desc['hollow_operand'] = hollow
+        try:
+            if entry == 'biom':
+                import biom
+                res = biom.concat(list(tables), axis=axis)
+            else:
+                res = tables[0].concat(list(tables[1:]), axis=axis)
+        except Exception:
+            # refusing an operand without the other axis is not a wrong table
+            ctx.count('hollow_operand_refused')
+            for t, b in zip(tables, befores):
+                oracles.unchanged(t, b, 'C10/operand-modified', desc,
+                                  'operand')
+            ctx.case(desc, True)
+            return
+        ctx.count('hollow_operand_concatenated')
+    elif entry == 'biom':
         import biom
         res = biom.concat(list(tables), axis=axis)
         ctx.count('via_biom_concat')
